@@ -8,7 +8,9 @@ EXTENDS JetProg
 CONSTANTS Depth, Kinds
 
 Focals == {"ok", "fail", "failvar", "panic", "inclbroken"}
-TryKinds == {"none", "try"}
+\* trycatch: the failure is handled by a catch list; trycatchfail: the catch list fails too (the error escapes, what
+\* the try body had rendered is gone for good)
+TryKinds == {"none", "try", "trycatch", "trycatchfail"}
 ProbeKinds == {"top", "block", "include"}
 
 Focal(f) ==
@@ -23,7 +25,10 @@ Focal(f) ==
 MkC(par) ==
   LET path == par[1]  f == par[2]  tk == par[3]  pk == par[4]  toplet == par[5]
       r    == Build(path, 1, Focal(f))
-      body == IF tk = "try" THEN <<TryS("try", r.main)>> ELSE r.main
+      body == CASE tk = "try" -> <<TryS("try", r.main)>>
+                [] tk = "trycatch" -> <<TryCatchS("try", <<T("t0")>> \o r.main, "e", <<T("c0")>>)>>
+                [] tk = "trycatchfail" -> <<TryCatchS("try", <<T("t0")>> \o r.main, "e", <<T("c0"), P("cf", FailE), T("c1")>>)>>
+                [] OTHER -> r.main
       \* without the top-level := no deferred scope restore surrounds the failing construct
       main == <<T("pre")>> \o (IF toplet THEN <<LetS("ls", "s", Lit("s0"))>> ELSE <<>>) \o body \o <<T("post")>>
       vmA  == [NoVarsMap EXCEPT !["x3"] = "vmx3", !["q1"] = "vmq1"]
